@@ -638,7 +638,7 @@ def hostile_streams(env):
                 clause='while a misbehaving peer\'s connection stays open, well-formed RPCs on its other streams and RPCs with other peers keep succeeding')
 
 
-NETWORK_NAMES = dict(a1=('net-a', None), a2=('net-a', None), b1=('net-b', None), ab=('net-a', 'net-b'), ba=('net-b', 'net-a'))
+NETWORK_NAMES = dict(a1=('net-a', None), a2=('net-a', None), b1=('net-b', None), ab=('net-a', 'net-b'), ba=('net-b', 'net-a'), u1=('net_a', None), u2=('net_a', None))
 
 
 def network_names(env):
@@ -656,9 +656,9 @@ def network_names(env):
         if pr['connect_ok'] != want or pr['either_lists_the_other'] != want or pr['rpc_ok'] != want:
             fails.append(dict(scenario='network_names', args=dict(dialer=dict(name=dn, alternate=da), listener=dict(name=ln, alternate=la)),
                               expected=dict(connect_ok=want, either_lists_the_other=want, rpc_ok=want), observed=pr))
-    if not fails and len(pairs) != 20:
+    if not fails and len(pairs) != 42:
         raise Undecided('network_names scenario reported %d pairs' % len(pairs))
-    return dict(name='network_names', validates='on real networks (TLS with SNI resolution in rustls and name matching in webpki, which no contract covers): all 20 ordered pairs of 5 networks with primary / alternate names',
+    return dict(name='network_names', validates='on real networks (TLS with SNI resolution in rustls and name matching in webpki, which no contract covers): all 42 ordered pairs of 7 networks with primary / alternate names, two of them named like another one up to a punctuation character',
                 cases=len(pairs), failed=fails, ok=not fails, props=['C14'],
                 clause='two endpoints connect exactly when the dialer\'s primary network name is one the listener accepts (its primary or alternate name); endpoints of different networks never connect in either direction')
 
